@@ -210,6 +210,11 @@ pub fn ref_chunked(body: &[u8]) -> ChunkedRef {
                 return r;
             }
         };
+        // a size line of more than 128 bytes (line ending included) may be refused: the client's stated
+        // limit on these lines; such a body is still well-formed for the liberal reading
+        if lf + 1 - at > 128 {
+            r.strict_ok = false;
+        }
         let mut line = &body[at..lf];
         if line.last() == Some(&b'\r') {
             line = &line[..line.len() - 1];
